@@ -125,6 +125,10 @@ func (h *ValueReader) HandleObjectValue(fieldname, data []byte) (p int, err erro
 	default:
 		val, pp, err = h.readSimpleValue(data, tknType)
 	}
+	if h.objVal == nil {
+		// HandleObjectValue called directly on a reader that is not inside ReadObject
+		h.objVal = make(map[string]interface{})
+	}
 	h.objVal[string(fieldname)] = val
 	return p + pp, err
 }
